@@ -158,6 +158,14 @@ def eval_input(case, rec):
                 want = units.to_base(v, pu)
                 dec = decimals_of(e['tok'])
                 tol = abs(units.TABLE[e['unit']][1]) * 0.5 * 10 ** (-(dec or 0)) * 1.000001 + 1e-9 * abs(want)
+                # the line may show a quantity derived from the input (e.g. the depth after the Tmax cap): then the reference is
+                # what the bare-value run shows, not the number typed
+                ea = Report(a.report).find(sec, label)
+                if ea and ea[0]['unit'] in units.TABLE and units.dim(ea[0]['unit']) == d and ea[0]['value'] is not None:
+                    shown_a = units.to_base(ea[0]['value'], ea[0]['unit'])
+                    tol_a = abs(units.TABLE[ea[0]['unit']][1]) * 0.5 * 10 ** (-(decimals_of(ea[0]['tok']) or 0)) * 1.000001
+                    if abs(shown_a - want) > tol_a + 1e-9 * abs(want):
+                        want, tol = shown_a, tol + tol_a
                 if abs(shown - want) > tol:
                     bad('echo', {'written_as': f'{sval} {alt}', 'echo_line': e['raw'].strip(), 'denotes_base': shown, 'supplied_base': want})
             elif e['unit'] != '' or d is not None:
